@@ -234,6 +234,18 @@ add(
     "3/C07",
 )
 
+add(
+    "C06",
+    "Every labelled output is compared with a per-label specification under enumerated declaration orders: all orders of "
+    "2-3 megacomplexes per dataset with permuted label lists (shared / distinct labels, megacomplex scales, 2-D and 3-D "
+    "contributions) through the real calculate_dataset_matrix / combine_megacomplex_matrices on symbolic matrices - the "
+    "column of a label is the sum of the scaled contributions under that label; all orders of 2-3 damped oscillations "
+    "(columns belong to their own frequency / rate); all orders of the spectral shape dict; baseline label. Compartment / "
+    "K-matrix orders are enumerated in C04, dataset order and linked stacking in C02/C03.",
+    COMMON_NOTE + "'leaves the fit unchanged' is derived (equal labelled matrices + C02), pfid / clp-guide not covered.",
+    "3/C06",
+)
+
 ALL = [f"C{i:02d}" for i in range(1, 21)]
 
 
